@@ -15,6 +15,7 @@ import (
 	"time"
 
 	"github.com/grailbio/bigslice/exec"
+	"github.com/grailbio/bigslice/sortio"
 	"verifh/vsys"
 )
 
@@ -100,6 +101,9 @@ func setup() {
 	// machine LOST, which in production takes microseconds against 135 s.
 	exec.VerifC02SetRetryPolicy(5*time.Millisecond, 80*time.Millisecond, 2, 5)
 	exec.DoShuffleReaders = false
+	// sortio copies the chunk size at init: the merge/reduce readers buffer 4
+	// rows per stream, so every shuffle stream is refilled several times.
+	sortio.VerifCommonSetChunk(4)
 	// Several encoded batches per task output (chunk = 4 rows; must be a power of two for the combiner hash table).
 	if err := flag.Set("bigslice-internal-default-chunk-rows", "4"); err != nil {
 		panic(err)
